@@ -470,6 +470,14 @@ structure Resp where
   www    : List Bytes
 deriving DecidableEq, Repr, Inhabited
 
+/-- the server of `serve` as a client sees it (status 0 = no response: the connection is gone) -/
+def serveResp (H : Hashes) (methods : List VerifyMethod) (user pass : Bytes) (fresh : Option Bytes)
+    (c : Conn) (rq : Req) : Conn × Resp :=
+  if c.closed then (c, { status := 0, www := [] })
+  else
+    let (c', o) := serve H methods user pass c fresh rq
+    (c', { status := o.status, www := o.www.getD [] })
+
 /-- the request as the client holds it: method, the URL's three renderings and its credentials
 (`URL.User`, `none` = nil) -/
 structure ClientReq where
